@@ -260,8 +260,8 @@ func usableInstances(tier string) []Instance {
 
 func init() {
 	register(&Check{ID: "C09",
-		Rule: "workloads on node 1 (configuration of 1 or 2 nodes): every single call from {correctable stream with k in 1..3 server replies x quorum function done at the first reply / never x fast / slow (blocked) quorum function, cancelled stream, quorum call, async, correctable, RPC, multicast, each optionally with its context cancelled by a free-running thread} and every ordered pair of 5 representatives (concurrent and sequential) x fault {none, stream reset, crash+restart as free-running threads} x a free-running thread that fires the armed timers at any instant; then every back-off timer is fired to a horizon of 4 rounds and a probe RPC with a fresh context is issued; oracle: the probe is delivered and answered with its own stamped reply, and no library thread is left blocked on a lock; all schedules within the deviation bound; an outcome is (instance, probe result)",
-		Gen:  usableInstances,
+		Rule:        "workloads on node 1 (configuration of 1 or 2 nodes): every single call from {correctable stream with k in 1..3 server replies x quorum function done at the first reply / never x fast / slow (blocked) quorum function, cancelled stream, quorum call, async, correctable, RPC, multicast, each optionally with its context cancelled by a free-running thread} and every ordered pair of 5 representatives (concurrent and sequential) x fault {none, stream reset, crash+restart as free-running threads} x a free-running thread that fires the armed timers at any instant; then every back-off timer is fired to a horizon of 4 rounds and a probe RPC with a fresh context is issued; oracle: the probe is delivered and answered with its own stamped reply, and no library thread is left blocked on a lock; all schedules within the deviation bound; an outcome is (instance, probe result)",
+		Gen:         usableInstances,
 		Assumptions: []string{"handlers of the workload return at once (the property conditions on handlers that return or release)", "eventual form: armed library timers are fired before the probe and while it waits"},
 	})
 }
